@@ -38,6 +38,7 @@ pub struct Env {
   pub max_gap: u64,
   pub calls: Vec<String>,
   pub script: Vec<String>,
+  pub moves: Vec<String>,        // arrivals and answers in the order they happened (request ENVCHK)
   pub fail_at: Option<usize>,
   pub calls_after_failure: usize,
   failed: bool,
@@ -50,7 +51,7 @@ impl Env {
     Env {
       kbd: VecDeque::new(), kbd_flag: false, kbd_gone: false, tab: VecDeque::new(), tab_flag: false,
       schedule: schedule.into_iter().collect(), rng: Rng::new(seed), t0: Instant::now(), last_return: 0, max_gap: 0,
-      calls: Vec::new(), script: Vec::new(), fail_at, calls_after_failure: 0, failed: false, polls_with_unread: 0, has_tablet
+      calls: Vec::new(), script: Vec::new(), moves: Vec::new(), fail_at, calls_after_failure: 0, failed: false, polls_with_unread: 0, has_tablet
     }
   }
 
@@ -79,6 +80,16 @@ impl Env {
     let t = self.now_ns();
     self.last_return = t;
     self.script.push(format!("{}@{}", resp, t));
+    self.moves.push(format!("{}@{}", resp, t));
+  }
+
+  fn log_arrival(&mut self, m: &Move) {
+    match m {
+      Move::Kbd(evs) => self.moves.push(format!("Ak:{}", if evs.is_empty() { "-".to_string() } else { evs.iter().map(|e| fmt::event(e)).collect::<Vec<_>>().join(".") })),
+      Move::Tab(evs) => if self.has_tablet { self.moves.push(format!("At:{}", if evs.is_empty() { "-".to_string() } else { evs.iter().map(|on| if *on { "On" } else { "Off" }).collect::<Vec<_>>().join(".") })) },
+      Move::Gone => self.moves.push("Ag".to_string()),
+      _ => ()
+    }
   }
 
   // deliver up to n pending arrival moves from the head of the schedule
@@ -86,7 +97,9 @@ impl Env {
     for _ in 0..n {
       match self.schedule.front() {
         Some(Move::Kbd(_)) | Some(Move::Tab(_)) | Some(Move::Gone) => {
-          match self.schedule.pop_front().unwrap() {
+          let mv = self.schedule.pop_front().unwrap();
+          self.log_arrival(&mv);
+          match mv {
             Move::Kbd(evs) => { for e in evs { self.kbd.push_back(e); } self.kbd_flag = true; },
             Move::Tab(evs) => { if self.has_tablet { for e in evs { self.tab.push_back(e); } self.tab_flag = true; } },
             Move::Gone => { self.kbd_gone = true; self.kbd_flag = true; },
@@ -124,7 +137,9 @@ impl ScriptedDriver for Env {
         self.leave(format!("pD:{}", txt.join(".")));
         return Ok(ScriptedPoll::DeviceEvent(devs));
       }
-      match self.schedule.pop_front() {
+      let mv = self.schedule.pop_front();
+      match &mv { None => self.moves.push("Ag".to_string()), Some(m) => { let m2 = m.clone(); self.log_arrival(&m2); } }
+      match mv {
         None => { self.kbd_gone = true; self.kbd_flag = true; },
         Some(Move::Kbd(evs)) => { for e in evs { self.kbd.push_back(e); } self.kbd_flag = true; },
         Some(Move::Tab(evs)) => { if self.has_tablet { for e in evs { self.tab.push_back(e); } self.tab_flag = true; } },
@@ -174,6 +189,7 @@ impl ScriptedDriver for Env {
 pub struct RunResult {
   pub calls: Vec<String>,
   pub script: Vec<String>,
+  pub moves: Vec<String>,
   pub status: String,
   pub tol: u64,
   pub calls_after_failure: usize,
@@ -189,7 +205,7 @@ pub fn run_real(layout: &Layout, schedule: &[Move], seed: u64, fail_at: Option<u
     Ok(Ok(())) => "ok".to_string(),
     Ok(Err(msg)) => format!("err:{}", hex(&msg))
   };
-  RunResult { calls: env.calls.clone(), script: env.script.clone(), status, tol: env.max_gap + 2000, calls_after_failure: env.calls_after_failure, polls_with_unread: env.polls_with_unread }
+  RunResult { calls: env.calls.clone(), script: env.script.clone(), moves: env.moves.clone(), status, tol: env.max_gap + 2000, calls_after_failure: env.calls_after_failure, polls_with_unread: env.polls_with_unread }
 }
 
 fn random_history(rng: &mut Rng, alphabet: &[KeyCode], len: usize) -> Vec<Event> {
@@ -287,6 +303,8 @@ pub fn run(opts: &Opts) -> i32 {
   let mut distinct: std::collections::HashSet<String> = std::collections::HashSet::new();
   let mut divergences = 0u64;
   let mut monitor_violations = 0u64;
+  let mut env_checked = 0u64;
+  let mut env_negative_done = false;
 
   struct Pending { layout: String, layout_json: serde_json::Value, schedule: String, fail_at: Option<usize>, script: String, calls: String, status: String, tol: u64 }
   let mut pend: Vec<Pending> = Vec::new();
@@ -295,6 +313,14 @@ pub fn run(opts: &Opts) -> i32 {
     if !crate::h_mapper::is_wf(layout) { continue; }
     let layout_txt = fmt::layout(layout);
     lean.expect(1, 0, format!("L {}", layout_txt), "wf".to_string());
+    if !env_negative_done {
+      // negative controls of the environment instance check: a poll that reports a device nobody flagged, a time-out
+      // although the keyboard is flagged, a read that returns an event that never arrived
+      env_negative_done = true;
+      lean.expect(5, 0, "ENVCHK u@1,pD:k@5".to_string(), "env-reject:1:pD:k@5".to_string());
+      lean.expect(5, 0, "ENVCHK u@1,Ak:P30,pT@5".to_string(), "env-reject:2:pT@5".to_string());
+      lean.expect(5, 0, "ENVCHK u@1,Ak:P30,pD:k@5,kP31@6".to_string(), "env-reject:3:kP31@6".to_string());
+    }
     for si in 0..per_layout {
       let tablet = rng.chance(1, 2);
       let hlen = rng.range(1, 10);
@@ -326,6 +352,11 @@ pub fn run(opts: &Opts) -> i32 {
       pend.push(Pending { layout: layout_txt.clone(), layout_json: crate::h_mapper::layout_to_json(layout), schedule: format!("{:?}", schedule), fail_at: None, script: r.script.join(","), calls: r.calls.join(";"), status: r.status.clone(), tol: r.tol });
       lean.expect(2, idx as u64, format!("LOOPCHK {} {} {} {}", if r.script.is_empty() { "-".to_string() } else { r.script.join(",") }, if r.calls.is_empty() { "-".to_string() } else { r.calls.join(";") }, r.status, r.tol), "ok".to_string());
       lean.expect(3, idx as u64, format!("LOOPMON {} {} {} {}", if r.script.is_empty() { "-".to_string() } else { r.script.join(",") }, if r.calls.is_empty() { "-".to_string() } else { r.calls.join(";") }, r.status, r.tol), "ok".to_string());
+      // the run as an instance of the formal closed system (loop model x edge-triggered environment of Model/LoopEnv.lean)
+      if r.status != "panic" {
+        env_checked += 1;
+        lean.expect(4, idx as u64, format!("ENVCHK {}", if r.moves.is_empty() { "-".to_string() } else { r.moves.join(",") }), "ok".to_string());
+      }
 
       // C20: a failure injected at each individual driver call in turn (quick: a sample of the indices)
       let step = if thorough { std::cmp::max(1, n_calls / 12) } else { std::cmp::max(1, n_calls / 4) };
@@ -381,7 +412,7 @@ pub fn run(opts: &Opts) -> i32 {
     "rule": "each case = one run of the real loop against a seeded random environment schedule (arrival batches, timer ticks incl. late ones, spurious time-outs, interruptions, tablet events, device-gone) on a corpus/README/built-in/random layout, plus one run per injected-failure index; non-trivial and distinct = distinct (layout, answer sequence) whose transcript contains at least two sends",
     "chord_sends": chord_sends, "tablet_events_read": tablet_events, "interruptions": interrupted, "schedules_with_two_or_more_batches": multi_batch,
     "schedules_with_late_timer": late_timers, "device_end_reads": ends,
-    "divergences": divergences, "monitor_violations": monitor_violations, "samples": samples, "findings": findings.len()
+    "divergences": divergences, "monitor_violations": monitor_violations, "runs_checked_as_instances_of_the_formal_environment": env_checked, "samples": samples, "findings": findings.len()
   });
   if let Some(p) = opts.get("stats") { std::fs::write(p, serde_json::to_string_pretty(&stats).unwrap()).unwrap(); }
   println!("STATS {}", stats);
